@@ -305,6 +305,22 @@ theorem C01_wf_update_never_fails (rb : Nat) (s0 : State) (hk : KeysNodup s0.cs)
   intro v i c0 hfind
   exact ⟨trivial, c0, c0, hfind, rfl, rfl⟩
 
+/-- **C01 for the store model, in one statement.**  From a store of freshly added contracts whose
+metrics equal the recomputation, every history of block connections and disconnections that is
+well-formed against the best chain is processed without a fault, and afterwards every contract
+reports exactly the chain view (status modulo the one-way rejection, formation confirmation,
+confirmed-revision flag, resolution height) obtained by processing only the blocks of the final
+best chain, in order. -/
+theorem C01_global (rb : Nat) (s0 : State) (hk : KeysNodup s0.cs) (hm : MInv s0)
+    (hfresh : ∀ v i c0, findC v i s0.cs = some c0 → Fresh c0) (ops : List GOp) (hwf : WFG s0 [] ops) :
+    ∃ s', runG rb s0 ops = .ok s' ∧
+      ∀ v i c0, findC v i s0.cs = some c0 →
+        ∃ c X, findC v i s'.cs = some c ∧ specTop c0 (finalStk [] (ops.map (projOp v i))) = .ok X ∧
+          Good X ∧ viewOf c = viewOf X := by
+  obtain ⟨s', hrun⟩ := C01_wf_update_never_fails rb s0 hk hm hfresh ops hwf
+  exact ⟨s', hrun, fun v i c0 hfind =>
+    C01_global_best_chain_wf rb ops s0 s' hk hwf hrun v i c0 hfind (hfresh v i c0 hfind)⟩
+
 /-! ### non-vacuity -/
 
 def wfStepGB (s0 : State) (stk : List (Nat × Changes)) : GOp → Bool
